@@ -35,8 +35,8 @@ Fixpoint list_eqb {A} (e : A -> A -> bool) (a b : list A) : bool :=
   end.
 
 Record qcase := {
-  qc_max : N;                          (* maxQueueSize, 0 = unlimited *)
-  qc_hist : list uitem;
+  qc_max : N;                          (* maxQueueSize of the FIRST process, 0 = unlimited *)
+  qc_hist : list vitem;                (* every restart / crash recovery names the bound of the process it starts *)
   qc_outs : list (option out);         (* what the code returned, per item (None for restart / crash) *)
   qc_image : list entry;               (* final records under /batches, in key order: (sequence number of the key, contents id) *)
   qc_log : list wr                     (* recorded datastore writes, in order (keys as sequence numbers) *)
@@ -44,10 +44,10 @@ Record qcase := {
 
 (* 1 = results differ, 2 = final durable image differs, 3 = write log differs *)
 Definition check_case (c : qcase) : list N :=
-  let '(rst, outs) := r_run (qc_max c) r_st0 (qc_hist c) in
+  let '(st, outs) := v_run (v_st0 (qc_max c)) (qc_hist c) in
   (if list_eqb oout_eqb outs (qc_outs c) then [] else [1]) ++
-  (if list_eqb entry_eqb (db (core rst)) (qc_image c) then [] else [2]) ++
-  (if list_eqb wr_eqb (r_wlog (qc_max c) r_st0 (qc_hist c)) (qc_log c) then [] else [3]).
+  (if list_eqb entry_eqb (db (core (vr st))) (qc_image c) then [] else [2]) ++
+  (if list_eqb wr_eqb (v_wlog (v_st0 (qc_max c)) (qc_hist c)) (qc_log c) then [] else [3]).
 
 Fixpoint mismatches_from (i : N) (cs : list qcase) : list (N * list N) :=
   match cs with
